@@ -177,6 +177,12 @@ def pick_scheduler(t):
     sched = t.weighted([(4, "random"), (1, "fifo"), (1, "lifo"), (1, "rdoc"), (1, "starve"), (2, "pct")])
     busy = t.choose([30, 0, 10, 60, 100])
     mode = t.weighted([(5, "gate"), (3, "mixed"), (1, "sleep"), (1, "yield")])
+    # Python 3.12's eager task factory (tasks run synchronously up to their first suspension) is a legitimate loop
+    # configuration that changes every interleaving; own stream so that the other choices of a seed are unaffected
+    if hasattr(t, "t") and hasattr(asyncio, "eager_task_factory"):
+        from simv.tape import SubTape
+        if SubTape(t.t, t.s + ".eager").chance(15):
+            mode += "+eager"
     return sched, busy, mode
 
 
